@@ -376,7 +376,13 @@ func updateConfigFile() {
 		}
 		b = append(b, ")\n"...)
 	}
-	if err := os.WriteFile(configFilename, b, 0666); err != nil {
+	// Write to a temporary file that then replaces the configuration file so
+	// that an interrupted update does not leave an empty or partial file.
+	tmp := fmt.Sprintf("%s.tmp", configFilename)
+	if err := os.WriteFile(tmp, b, 0666); err != nil {
+		panic(err)
+	}
+	if err := os.Rename(tmp, configFilename); err != nil {
 		panic(err)
 	}
 }
